@@ -1,5 +1,5 @@
 """Per-property check plans (DESIGN.md section 5)."""
-import os, json, shutil
+import os, json, re, shutil, subprocess
 from common import *
 from engine import *
 import families
@@ -195,13 +195,158 @@ def c01(res):
         work_traces(res, [65536, 1048576])
 
 
+VARIANTS = {
+    "sse42ct": {"rustflags": "-C target-feature=+sse4.2", "subdir": "sse42ct"},
+    "avx2ct": {"rustflags": "-C target-feature=+avx2", "subdir": "avx2ct"},
+    "nosimd": {"env": {"CARGO_CFG_HTTPARSE_DISABLE_SIMD": "1"}, "subdir": "nosimd"},
+    "noct": {"rustflags": "-C target-feature=+avx2", "env": {"CARGO_CFG_HTTPARSE_DISABLE_SIMD_COMPILETIME": "1"}, "subdir": "noct"},
+    "nostd": {"features": "", "subdir": "nostd"},
+}
+
+
+def build_matrix(res, profiles=("release",)):
+    """every supported combination of build switches: build a probe, compare the module
+    that provides the scanners (hook H2) with Build.tla's prediction, and the probe's
+    parse results with each other"""
+    wd = os.path.join(WORK, "run", "%s-%s" % (res.prop, res.tier))
+    r = tlc("Build", "SPECIFICATION Spec\n", wd, "build", workers=1, timeout=300)
+    txt = open(r["out"], errors="replace").read()
+    if "Assumption" in txt and "is false" in txt:
+        raise ToolError("Build.tla: an ASSUME (ExactlyOneProvider / NoStdIsScalar) is false:\n" + r["tail"][-2000:])
+    m = re.search(r'<<"PREDICTIONS", "(.*)">>', txt)
+    if not m:
+        raise ToolError("Build.tla printed no predictions:\n" + r["tail"][-2000:])
+    preds = json.loads(m.group(1).replace('\\"', '"'))
+    pred = {tuple(p[:5]): p[5] for p in preds}
+    res.states += 256 * 4
+    res.transitions += 256 * 4
+    res.mc.append({"step": "build-lattice", "module": "Build", "combinations_checked_by_TLC": 2 ** 7 * 4, "predictions": len(pred)})
+    probe = os.path.join(HARNESS, "probe")
+    jobs = []
+    for prof in profiles:
+        for std in (1, 0):
+            for dsimd in (0, 1):
+                for dct in (0, 1):
+                    for tf in ("", "+sse4.2", "+avx2", "+sse4.2,+avx2"):
+                        jobs.append((prof, std, dsimd, dct, tf))
+    results = {}
+    procs = []
+
+    def start(job):
+        prof, std, dsimd, dct, tf = job
+        tdir = os.path.join(probe, "target", "m_%s_%d%d%d_%s" % (prof, std, dsimd, dct, tf.replace("+", "").replace(",", "_").replace(".", "") or "none"))
+        e = dict(os.environ, CARGO_NET_OFFLINE="true")
+        e["RUSTFLAGS"] = "--cfg httparse_verif --check-cfg cfg(httparse_verif)" + ((" -C target-feature=" + tf) if tf else "")
+        if dsimd:
+            e["CARGO_CFG_HTTPARSE_DISABLE_SIMD"] = "1"
+        if dct:
+            e["CARGO_CFG_HTTPARSE_DISABLE_SIMD_COMPILETIME"] = "1"
+        cmd = ["cargo", "build", "--offline", "--target-dir", tdir] + (["--release"] if prof == "release" else []) + ([] if std else ["--no-default-features"])
+        return (subprocess.Popen(cmd, cwd=probe, env=e, stdout=subprocess.PIPE, stderr=subprocess.STDOUT, text=True), job, tdir)
+
+    pending = list(jobs)
+    running = []
+    while pending or running:
+        while pending and len(running) < 8:
+            running.append(start(pending.pop(0)))
+        pr, job, tdir = running.pop(0)
+        out, _ = pr.communicate()
+        prof, std, dsimd, dct, tf = job
+        want = pred.get((std, dsimd, dct, 1 if "sse4.2" in tf or "avx2" in tf else 0, 1 if "avx2" in tf else 0))
+        if pr.returncode != 0:
+            msg = "build switch combination does not compile: std=%d DISABLE_SIMD=%d DISABLE_SIMD_COMPILETIME=%d target-feature=%r profile=%s" % (std, dsimd, dct, tf, prof)
+            res.violation(msg, {"kind": "buildmatrix", "job": list(job), "key": "build:" + repr(job), "output": out[-1500:]})
+        else:
+            exe = os.path.join(tdir, "release" if prof == "release" else "debug", "probe")
+            rr = subprocess.run([exe], capture_output=True, text=True, timeout=60)
+            if rr.returncode != 0:
+                res.violation("probe crashed in build variant %r" % (job,), {"kind": "buildmatrix", "job": list(job), "key": "probe:" + repr(job)})
+            else:
+                info = json.loads(rr.stdout.strip().splitlines()[-1])
+                results[job] = info
+                if info["provider"] != want:
+                    res.violation("build variant std=%d DISABLE_SIMD=%d DISABLE_SIMD_COMPILETIME=%d target-feature=%r: scanners provided by `%s`, Build.tla predicts `%s`"
+                                  % (std, dsimd, dct, tf, info["provider"], want), {"kind": "buildmatrix", "job": list(job), "key": "provider:" + repr(job)})
+        shutil.rmtree(tdir, ignore_errors=True)
+    sigs = {}
+    for job, info in results.items():
+        sigs.setdefault((info["req"], info["nheaders"], info["resp"]), []).append(job)
+    if len(sigs) > 1:
+        res.violation("build variants disagree on the result of the same parse: %s" % {str(k): len(v) for k, v in sigs.items()},
+                      {"kind": "buildmatrix", "key": "probe-disagree", "sigs": {str(k): [list(j) for j in v][:4] for k, v in sigs.items()}})
+    res.traces += len(results)
+    res.evaluations += len(jobs)
+    res.nontrivial += len(results)
+    log("  [build] %d switch combinations built, providers %s" % (len(jobs), {p: sum(1 for i in results.values() if i["provider"] == p) for p in set(i["provider"] for i in results.values())}))
+    res.extra["build_matrix"] = {"combinations_built": len(jobs), "ok": len(results),
+                                 "providers": {p: sum(1 for i in results.values() if i["provider"] == p) for p in set(i["provider"] for i in results.values())}}
+    res.samples.append({"build_variant": {"std": 1, "target_feature": "+avx2", "probe": next(iter(results.values()), None)}})
+
+
+def race_traces(res, procs, threads=16):
+    wd = os.path.join(WORK, "run", "%s-%s" % (res.prop, res.tier), "race")
+    shutil.rmtree(wd, ignore_errors=True)
+    os.makedirs(wd)
+    bindir = build_harness("release")
+    exe = os.path.join(bindir, "driver")
+    files = []
+    per = max(1, procs // NCPU)
+    n = 0
+    for i in range(NCPU):
+        path = os.path.join(wd, "race.%d" % i)
+        with open(path, "w") as f:
+            for k in range(per):
+                r = subprocess.run([exe, "race", "--threads", str(threads)], capture_output=True, text=True, timeout=60)
+                if r.returncode != 0:
+                    res.violation("cold-start race: the process crashed (rc=%d)" % r.returncode, {"kind": "race-crash", "key": "race-crash"})
+                    continue
+                f.write(r.stdout.strip().splitlines()[-1] + "\n")
+                n += 1
+        files.append(path)
+    results = validate_traces(res, "race", "TraceRace", TRACE_CFG, files)
+    raced = 0
+    for path in files:
+        for line in open(path):
+            if line.count("[0,0]") > 1:
+                raced += 1
+    res.traces += n
+    res.evaluations += n * threads
+    res.nontrivial += raced
+    res.extra["cold_starts"] = {"processes": n, "threads_each": threads, "with_a_real_race(>1 thread saw the empty cell)": raced}
+    for tf, ok, idx, cnt, inv in results:
+        if ok:
+            continue
+        ev = open(tf).read().splitlines()[idx - 1]
+        res.violation("cold-start race trace not explainable by Runtime.tla (or threads disagree on the result): %s" % ev[:400],
+                      {"kind": "race", "event": ev, "key": "race:" + ev[:200]})
+    if len(res.samples) < 8:
+        res.samples.append({"race_event": open(files[0]).readline()[:400]})
+    shutil.rmtree(wd, ignore_errors=True)
+
+
 def c13(res):
     t = res.tier
-    mc_head(res, "no-backend-in-spec", invs=["InvLanguage"], L="1")
+    for cpu in (1, 2, 3):
+        mc_step(res, "runtime-race-cpu%d" % cpu, "Runtime",
+                "SPECIFICATION RSpec\nCONSTANTS\n  Threads = %s\n  Calls = 2\n  Cpu = %d\nINVARIANT DispatchIsDetected CellIsZeroOrDetected AtDispatch\nCHECK_DEADLOCK FALSE\n"
+                % (fam(t, "{1, 2, 3}", "{1, 2, 3, 4}"), cpu), workers=8)
+    build_matrix(res, profiles=fam(t, ("release",), ("release", "debug")))
+    race_traces(res, fam(t, 160, 2000))
     lf = fam(t, "lane_q", "lane_t")
-    for b in (None, 1, 2, 3):
-        replay_step(res, lf, modes="alignall" if b is None and t == "quick" else "places", backend=b)
-        replay_step(res, "len_q", modes="places", backend=b, profile="dbgchk")
+    replay_step(res, lf, modes="alignall" if t == "quick" else "places", baseline=True)
+    replay_step(res, "len_q", modes="places", baseline=True)
+    if t == "thorough":
+        replay_step(res, "byte_q", modes="base", baseline=True)
+    for b in (1, 2, 3):
+        replay_step(res, lf, modes="places", backend=b, promote=True)
+        replay_step(res, "len_q", modes="places", backend=b, profile="dbgchk", promote=True)
+    for name in fam(t, ["sse42ct", "nosimd", "nostd"], ["sse42ct", "avx2ct", "nosimd", "noct", "nostd"]):
+        replay_step(res, lf, modes="places", variant=VARIANTS[name], promote=True)
+        if t == "thorough":
+            replay_step(res, "byte_q", modes="base", variant=VARIANTS[name], promote=True)
+            replay_step(res, "len_q", modes="places", variant=VARIANTS[name], profile="dbgchk", promote=True)
+    if t == "thorough":
+        replay_step(res, "byte_t", modes="alignall", kinds="0,1")
 
 
 TRACE_CFG = "SPECIFICATION TSpec\nPOSTCONDITION Accepted\nCHECK_DEADLOCK FALSE\n"
